@@ -240,6 +240,35 @@ def _compl(a: StateSet) -> StateSet:
     return (not a[0], a[1])
 
 
+_STATELESS_BUILTINS = {'isinstance', 'len', 'str', 'repr', 'id', 'hash', 'print', 'type'}
+_reads_state_cache: Dict[Tuple[Optional[str], bool], Optional[bool]] = {}
+
+
+def _reads_state(name: Optional[str], plain_attribute_ok: bool = False) -> Optional[bool]:
+    """Does the method / property / function `name` (looked up by name in the driver's instance modules) read an instance's state?
+    False: every definition found does not (or, for an attribute read, there is no such method: a plain data attribute);
+    True: some definition reads `.state` / `._state`; None: not found / not decided."""
+    key = (name, plain_attribute_ok)
+    if key in _reads_state_cache:
+        return _reads_state_cache[key]
+    res: Optional[bool] = None
+    if name is not None:
+        defs: List[pf.FuncDef] = []
+        for rel in ('batch/batch/driver/instance.py', 'batch/batch/driver/instance_collection/base.py'):
+            try:
+                m = pf.load(rel)
+            except AnalysisError:
+                continue
+            defs += [n for n in ast.walk(m.tree) if isinstance(n, (ast.FunctionDef, ast.AsyncFunctionDef)) and n.name == name]
+        if defs:
+            res = any(isinstance(x, ast.Attribute) and x.attr in ('state', '_state') for d in defs for x in ast.walk(d)) or \
+                any(isinstance(x, ast.Call) and isinstance(x.func, ast.Attribute) and isinstance(x.func.value, ast.Name) and x.func.value.id == 'self' for d in defs for x in ast.walk(d))
+        elif plain_attribute_ok:
+            res = False
+    _reads_state_cache[key] = res
+    return res
+
+
 class StateFacts:
     """What a boolean expression says about `<subject>.state` / `<subject>._state` (string-literal comparisons only)."""
 
@@ -273,7 +302,24 @@ class StateFacts:
                     return (False, ls)
         if any(self._is_state(n) for n in ast.walk(e)):
             self.opaque.append(pf.nsrc(e))
+        elif self._may_speak_about_subject(e):
+            self.opaque.append(pf.nsrc(e))      # e.g. `_is_pending(instance)`, `instance.never_activated`: may well be a test of the state, in a form not followed
         return TOP
+
+    def _may_speak_about_subject(self, e: ast.AST) -> bool:
+        for n in ast.walk(e):
+            if isinstance(n, ast.Call):
+                if isinstance(n.func, ast.Attribute) and pf.nsrc(n.func.value) == self.subject:
+                    if _reads_state(n.func.attr) is not False:
+                        return True
+                elif any(pf.nsrc(a) == self.subject for a in list(n.args) + [k.value for k in n.keywords]):
+                    name = n.func.id if isinstance(n.func, ast.Name) else (n.func.attr if isinstance(n.func, ast.Attribute) else None)
+                    if name not in _STATELESS_BUILTINS and _reads_state(name) is not False:
+                        return True
+            elif isinstance(n, ast.Attribute) and pf.nsrc(n.value) == self.subject and n.attr not in ('state', '_state'):
+                if _reads_state(n.attr, plain_attribute_ok=True) is not False:
+                    return True
+        return False
 
     def when_true(self, e: ast.expr) -> StateSet:
         if isinstance(e, ast.BoolOp):
@@ -453,8 +499,10 @@ def r4_zeroing_reason_precondition(ctx: Ctx, prog: sf.SqlProgram, trig: sf.Routi
             if ok:
                 good.append(chain)
                 continue
-            if opaque:
-                raise AnalysisError(f'{cons}: instance state is tested in a form the analysis does not follow ({opaque[0]})')
+            # tests the analysis cannot read may be the guard: without them the chain is evidence only if a test that IS read confines
+            # the instance to states that all lie after activation
+            if opaque and not any(acc[0] and not (acc[1] & pending) for _, _, acc in verdicts):
+                raise AnalysisError(f'{cons}: the instance (state) is tested in a form the analysis does not follow ({opaque[0]})')
             if bad is None:
                 bad = (w, chain, verdicts)
         if bad is None:
